@@ -617,6 +617,10 @@ def templateOp (run : Run) (n : Nat) (id : Nat) (t : String) (params : List (Str
         | [] => raise err)
       plainKeys.zipIdx
     pure (unionV (unionAll pk) (unionAll ks))
+  -- `Template.__init__` rejects a template whose `{:name:}` parameters are not all supplied; for the
+  -- transient templates built from option values (`Option.keys/explain`) this happens here
+  let required := (findKeys t).filter isParamKey
+  if required.any (fun k => !(params.any fun p => ":" ++ p.1 ++ ":" == k)) then raise (errOther "ValueError") else
   match op with
   | .evaluate => do
     let ps ← mapM' (fun (p : String × Expr) => do
